@@ -31,7 +31,14 @@ pub fn client_selectable_declaration_map_from_iso_literals<
     let mut out: BTreeMap<(_, SelectableName), _> = BTreeMap::new();
     let mut non_fatal_diagnostics = vec![];
 
-    for (_relative_path, iso_literals_source_id) in db.get_iso_literal_map().tracked().0.iter() {
+    // The iso literal map is a HashMap. Visit the files in a stable order, because the
+    // first of several declarations of the same selectable wins (and the others are
+    // reported), so the output would otherwise differ from process to process.
+    let iso_literal_map = db.get_iso_literal_map();
+    let mut iso_literals = iso_literal_map.tracked().0.iter().collect::<Vec<_>>();
+    iso_literals.sort_by_key(|(relative_path, _)| **relative_path);
+
+    for (_relative_path, iso_literals_source_id) in iso_literals {
         for extraction in parse_iso_literal_in_source(db, *iso_literals_source_id).to_owned() {
             match extraction {
                 Ok((extraction_result, _)) => match extraction_result {
